@@ -491,7 +491,15 @@ func runPairWith(ca, cb sideCfg, ha, hb *refHandler, maxSeg int, cutAtoB, cutBto
 
 // ---------------------------------------------------------------- message generation
 
-func (r Rng) Mid() string { return r.StringFrom(alnumUpper, 1+r.Intn(12)) }
+// Mid: a message identifier of 1..12 characters; identifiers are case sensitive, and a quarter
+// of them contain lower-case letters (GenerateMid produces upper case only, other software
+// need not)
+func (r Rng) Mid() string {
+	if r.Intn(4) == 0 {
+		return r.StringFrom(alnum, 1+r.Intn(12))
+	}
+	return r.StringFrom(alnumUpper, 1+r.Intn(12))
+}
 
 func (r Rng) Message(from string, mid string) *fbb.Message {
 	m := fbb.NewMessage(fbb.Private, from)
